@@ -1,5 +1,6 @@
 //! Channels of the line protocol (DESIGN Appendix B).
 pub mod dec;
+pub mod parse;
 pub mod store;
 pub mod trav;
 
@@ -13,6 +14,8 @@ pub fn respond(line: &str) -> String {
         "storef" => store::storef(rest),
         "trav" => trav::trav(rest),
         "dec" => dec::dec(rest),
+        "parse" => parse::parse(rest),
+        "asm" => parse::asm(rest),
         _ => "bad-request".to_string(),
     }
 }
